@@ -1,8 +1,24 @@
-"""C09 — tail calls are free and invisible (first version; see notes/C09.md)."""
+"""C09 — tail calls are free and invisible.
+
+Lean: Spec/TailPos.lean (tail position, from the property text), Proofs/Tail.lean (generator:
+which context every sub-expression is compiled under), Proofs/TailVM.lean (the tail sequence
+on the real loop of the VM model), Model/LegacyTail.lean (pre-fc05fc7 sequence),
+Props/C09.lean (the theorems). Tie: channel `tail` — histories "definitions, then the same
+call at growing depths" against one interpreter with the host functions `trace` and
+`probe`; implementation vs VM model on class/value/trace/stack depths at every probe;
+implementation vs reference evaluator (no tail-call optimisation) on class/value/trace;
+implementation vs closed forms beyond the reference's fuel; and the space oracle (one depth
+triple per probe site over all iterations and all depths of a history)."""
 import json, os, re
 import vcommon as V
 
-META = dict(text="(being built)", note="", technique="Lean 4 theorems + 3-way correspondence", design_ref="DESIGN.md §7 C09")
+META = dict(
+    text="Lean 4. Tail position is defined from the property text as an inductive relation over the abstract syntax (Spec/TailPos.lean: last form of cond arms/default, begin, let, letseq, newScope bodies, last arm of and/or, nested arbitrarily; k = scopes crossed). About the executable model of the generator (Model/Gen.lean, one function per Generate*) it is proved, for bodies of every size and nesting: a self call in tail position is compiled to operands; PrepareCall; RemoveScope x (k+1); Goto 0 (tail_position_gets_tail_sequence, tail_sequence_layout: the pop count is exactly the scopes opened since function entry plus the function scope); a call reached through at least one non-tail step (cond test, non-last statement/arm, let initialiser, array element, def/set right-hand side, assignment side) is compiled to one ordinary CallExpr, never to a jump (tail_flag_only_in_tail_position, with flag_mono: no Generate* ever sets the flag); every inline occurrence is one or the other (self_call_dichotomy). About the VM model (Model/VM.lean) it is proved on the real loop runLoop: from the tail sequence the machine reaches instruction 0 of the same function after k+3 steps with the data, scope and address stack depths of the original entry, fixed and variadic parameter lists, touching neither scope table, heap nor trace (tail_call_reenters_at_entry_depths); hence by induction on the number of iterations every re-entry has the depths of the first (tail_call_constant_space_partial, assuming the body stretch between entry and tail sequence is balanced). Transparency: TcoTransparent (VM model = reference evaluator) is stated, not proved; proved parts (tco_transparent_partial): no continuation is ever dropped, the tail sequence changes only pc/scope stack/packed operands, and the next iteration binds its parameters in a scope that did not exist before, so no scope captured by an earlier closure is written; the pre-fc05fc7 sequence (Goto 1) does write it (legacy_tail_call_rebinds_captured_scope_counterexample). The unit tests run depth 4 and 11 and look at one stack afterwards; the theorems cover every depth and nesting, and the correspondence runs depths 0..10^5 (thorough 10^6) sampling all three stacks at every re-entry.",
+    note="Trusted: Lean kernel; axioms propext/Classical.choice/Quot.sound. Model/Gen.lean and Model/VM.lean are hand-written and tied to zygo/generator.go, vm.go, environment.go only by the `tail` (and C02's `eval`) correspondence: differential testing, not proof. Partial: BodyBalanced (the body between function entry and the tail sequence leaves operands/scopes/addresses balanced) is a hypothesis of the space theorem, checked dynamically by the probe oracle on implementation and model, not derived from the generator (that is C04's gen_balanced/checker_sound); TcoTransparent is not proved (needs C02's CompileCorrect for the F3 fragment) and is held by the 3-way correspondence. Tail contexts outside the modelled core (package, return, macro expansions, infix blocks) are not covered by the theorems; `for` parts are non-tail in the model but have no step lemma. Constant space is a statement about the three interpreter stacks, not about Go heap use (closure creation in a loop is not constant-time in this interpreter: GenSymbol scans).",
+    technique="Lean 4 theorems over an executable model of generator+VM and an independent definition of tail position; 3-way model/reference/implementation correspondence with stack-depth probes through the line protocol",
+    design_ref="DESIGN.md §7 C09, §13; notes/C09.md",
+)
+
 HERE = os.path.dirname(os.path.dirname(os.path.abspath(__file__)))
 
 _P = re.compile(r"(P[^:,\]\*]*):(\d+/\d+/\d+)")
@@ -112,13 +128,34 @@ def run(rep):
         pass
     prep = V.prepare(["ZygoVerif.Props.C09"])
     ok = V.lean_phase(rep, prep, "ZygoVerif.Props.C09")
+    rep.coverage["proved"] = ("generator, all sizes/nestings: flag_mono, tailAt_emits, nonTailAt_emits (Proofs/Tail.lean) -> "
+                              "tail_position_gets_tail_sequence, tail_sequence_layout, tail_flag_only_in_tail_position, self_call_dichotomy; "
+                              "VM model, on runLoop: tail_sequence (+fixed/varargs), tail_call_reenters_at_entry_depths; induction over iterations: "
+                              "tail_call_constant_space_partial; transparency parts: tco_transparent_partial, bindParams_frame; "
+                              "legacy_tail_call_rebinds_captured_scope_counterexample vs current_tail_call_keeps_captured_scope")
+    rep.coverage["not_proved"] = ("TailCallConstantSpace in full (BodyBalanced is assumed for the body stretch, checked by the probe oracle); "
+                                  "TcoTransparent (VM model = reference evaluator on all well-formed programs): held by the `tail` correspondence")
+    rep.assumptions += [
+        "Model/Gen.lean, Model/VM.lean are hand-written; tied to the Go code by the `tail`/`eval` correspondences only (class, value, trace, four stack depths per text, three stack depths at every probe)",
+        "the model follows /repo with the proposed fixes C09-01 (tail flag leak) and C09-02 (tail-call arity); on a tree without them the exhibiting inputs are reported as KNOWN-FINDING (notes/C09.known.json, keyed by op line)",
+        "the reference evaluator (Spec/RefEval.lean, no tail-call optimisation, fresh frame per call) is 'the same function evaluated without the optimisation'",
+        "texts beyond the reference evaluator's fuel are judged on the value only, against a closed form computed by the generator (accumulator sums, closure value lists)",
+        "space = sizes of datastack, linearstack (scopes) and addrstack sampled by the host function `probe` while it runs; Go heap usage is out of scope",
+        "domain of the generators: s-expression syntax, the core forms of Model/CoreSexp.lean; no package/return/macro/infix contexts around the tail call",
+    ]
     if not (prep["ok_drv"] and prep["ok_harness"]):
         rep.violation("machinery-failure", {"what": "driver or harness did not build against the current tree",
                       "theorem_or_correspondence": "build of zydrv/zyh", "log": (prep["drv_out"] + prep["harness_out"])[-3000:]}, no_input=True)
         return
-    rows, stats = V.run_channel("tail", rep.seed, rep.tier)
+    rows, stats = V.run_channel("tail", rep.seed, rep.tier, timeout=7200)
     rows, jstats = judge(rows)
     nontrivial = lambda op, impl: impl.startswith("ok") or " ;; ok" in impl
     bad_spec, bad_model = V.correspondence(rep, "tail", rows, stats, nontrivial=nontrivial)
     rep.coverage["channels"]["tail"].update(jstats)
+    rep.coverage["exhaustive"] = False
+    rep.coverage["rule"] = ("one op = definitions + the same call at depths 0,1,2,3,10,100,300 (reference to 100, model to 1000), a sample at 1000 and 10^5 "
+                            "(thorough 10^6); shapes: every tail context alone, ordered pairs of tail contexts, random stacks of up to 7 contexts around "
+                            "accumulator / closure-collector / variadic / traced bodies with side statements (probes, locals, closures, effects), every "
+                            "look-alike non-tail context alone and mixed into tail stacks; hand-written histories incl. wrong-arity tail calls; an op is "
+                            "non-trivial when at least one text evaluated to a value")
     V.proof_break_resolution(rep, bool(bad_spec))
